@@ -164,13 +164,18 @@ def rule_noswallow(ctx: Ctx):
     # user's attribute itself; a lookup with a default, hasattr or suppress would turn a failing attribute into a value
     disp = ctx.p.module("statemachine/dispatcher.py")
     n_inv = 0
-    for f in disp.all_functions:
-        par = f.parent
-        if par is None or par.parent is not None or par.cls is not None or isinstance(f.node, ast.Lambda):
+    from ..shapes import closure_models
+
+    invokers = []
+    for par in disp.all_functions:
+        if par.parent is not None or par.cls is not None or isinstance(par.node, ast.Lambda) or ctx.is_new(par):
             continue
-        returned = any(isinstance(r, ast.Return) and isinstance(r.value, ast.Name) and r.value.id == f.name for r in own_nodes(par.node))
-        if not returned:
+        try:
+            for m in closure_models(ctx, par):  # a nested function or an instance of a small callable class
+                invokers.append((par, m.fn))
+        except AnalysisError:
             continue
+    for par, f in invokers:
         n_inv += 1
         for c in own_nodes(f.node):
             bad = None
